@@ -43,7 +43,7 @@ class FrameSim(Sim):
               "batch_norm_training_running_stats", "batch_norm_eval", "class_loss_with_target_tensor", "unfold_dim_result_consumed",
               "layout_F", "layout_strided", "layout_neg", "layout_offset", "repeat_op_bit_identical", "clone_detach_independent",
               "optimizer_step", "initialiser", "op_raised_nothing_changed", "forward_fault", "sweep_fault", "backward_with_caller_g",
-              "second_backward_same_graph", "zero_reset"]
+              "second_backward_same_graph", "zero_reset", "no_grad_span", "frozen_leaf_with_old_gradient"]
     RULE = ("one run = a seeded history of leaf/op/backward/zero/step/init/BN events over tensors in mixed memory layouts with views; distinct = "
             "hash of the sequence of (event kind, op, operand aliasing pattern, layouts); non-trivial = at least one backward with a "
             "caller-supplied gradient or a second sweep")
@@ -72,6 +72,7 @@ class FrameSim(Sim):
         st.bn = {}          # id -> True for BN running buffers
         st.pending = []
         st.pre_write_arrays = []
+        st.nograd_ctx = None
         return st
 
     # ------------------------------------------------------------------ frame oracle
@@ -173,6 +174,13 @@ class FrameSim(Sim):
                 return ev
         if r < 0.42:
             return {"k": "gc"}
+        if r < 0.45:
+            return {"k": "nograd_ctx", "on": st.nograd_ctx is None}
+        if r < 0.49:
+            fl = [i for i in leaves if G.T[i].data.dtype.kind == "f" and not st.bn.get(i)]
+            if fl:
+                i = rng.choice(fl)
+                return {"k": "set_rg", "t": i, "v": not G.T[i].requires_grad}
         if len(nodes) < 16:
             ev = self._gen_op(rng, st)
             if ev is not None:
@@ -309,6 +317,38 @@ class FrameSim(Sim):
 
     def _ev_gc(self, st, ev):
         gc.collect()
+
+    def _ev_nograd_ctx(self, st, ev):
+        self._pre(st, [])
+        if ev["on"] and st.nograd_ctx is None:
+            st.nograd_ctx = st.SG.sg.no_grad()
+            st.nograd_ctx.__enter__()
+            st.probes["no_grad_span"] += 1
+        elif not ev["on"] and st.nograd_ctx is not None:
+            st.nograd_ctx.__exit__(None, None, None)
+            st.nograd_ctx = None
+        self._frame(st, "entering/leaving no_grad")
+
+    def _ev_set_rg(self, st, ev):
+        """freeze / unfreeze a leaf: a frozen operand that still owns an old gradient is outside every later differentiated graph"""
+        G = st.G
+        i = ev["t"]
+        if i not in G.T or G.meta[i]["kind"] != "leaf":
+            st.skipped += 1
+            return
+        self._pre(st, [])
+        try:
+            G.T[i].requires_grad = ev["v"]
+        except Exception:
+            st.notes["set_rg_rejected"] += 1
+        if not ev["v"] and G.T[i]._grad is not None:
+            st.probes["frozen_leaf_with_old_gradient"] += 1
+        self._frame(st, "requires_grad toggled")
+
+    def finish(self, st):
+        if st.nograd_ctx is not None:
+            st.nograd_ctx.__exit__(None, None, None)
+            st.nograd_ctx = None
 
     def _ev_op(self, st, ev):
         G, SG = st.G, st.SG
@@ -464,6 +504,19 @@ class FrameSim(Sim):
         st.probes["initialiser"] += 1
         self._frame(st, ev["fn"], write)
 
+    def _diff_reach(self, st, root):
+        G = st.G
+        seen, stack = set(), [root]
+        while stack:
+            i = stack.pop()
+            if i in seen:
+                continue
+            seen.add(i)
+            if G.meta[i]["kind"] == "node" and not G.meta[i]["rg"]:
+                continue            # an untracked result (no_grad, constants only) is a cut
+            stack.extend(G.meta[i]["inputs"])
+        return seen
+
     def _ev_backward(self, st, ev):
         G, SG = st.G, st.SG
         root = ev["root"]
@@ -475,8 +528,10 @@ class FrameSim(Sim):
         if (g is None and t.data.size != 1) or (g is not None and g.shape != t.data.shape):
             st.skipped += 1
             return
-        reach = G.reach(root)
-        write = [("grad", i) for i in reach]
+        reach = self._diff_reach(st, root)
+        # the graph being differentiated: tracked results, and leaves that require grad now.  A frozen operand (requires_grad switched
+        # off) or anything behind a no_grad cut is OUTSIDE it: neither its data nor its gradient may change.
+        write = [("grad", i) for i in reach if G.T[i].requires_grad]
         gt = None
         if g is not None:
             g = g.astype(t.data.dtype) if t.data.dtype != g.dtype else g
